@@ -2,6 +2,7 @@ import JSight.NoCrash
 import JSight.RenderProofs
 import JSight.EnumNoCrash
 import JSight.SchemaNoCrash
+import JSight.DocCorollaries
 /-!
 # C07 — no panics: the parts that are theorems
 
@@ -54,3 +55,28 @@ theorem C07_render_total (content : Array UInt8) (idx : Nat) (h : idx < content.
     (Render.render content idx).isSome = true := Render.render_total content idx h
 
 end Props.C07
+
+/-! ## The json `Document` object never panics (carry-over of `C07_json_no_crash` through the C11 bridge) -/
+namespace Props.C07
+section document
+open DocCursor
+
+/-- for every byte string, both values of the option and EVERY history over {`NextLexeme`, `Check`, `Len`}, no call of the
+`Document` model ends in a non-error panic: no output of the history is `.next (.crash w)`, `.check (.crash w)` or
+`.len (.crash w)` (the fuel of the model's loops included: `"fuel"` is one of the `w`). From
+`C11_doc_next_never_panics` (`lexAt_never_crash`) and `C11_doc_check_len_never_panic`; what the once cells keep is never a
+panic either. -/
+theorem C07_document_never_panics (t : List UInt8) (o : Bool) (ops : List Op) :
+    ∀ out ∈ ((Doc.new t o).run ops).1, ∀ w : String,
+      out ≠ .next (.crash w) ∧ out ≠ .check (.crash w) ∧ out ≠ .len (.crash w) :=
+  DocCorollaries.outs_never_panic t o ops
+
+/-- non-vacuity: `{x}` (error inside), a history with every call kind, seven outputs, none a panic -/
+example : ((Doc.new [123, 120, 125] false).run [.next, .next, .next, .len, .next, .check, .next]).1.length = 7 ∧
+    (((Doc.new [123, 120, 125] false).run [.next, .next, .next, .len, .next, .check, .next]).1.map
+      DocCorollaries.outIsCrash).all (· == false) = true := by decide
+
+end document
+end Props.C07
+
+#print axioms Props.C07.C07_document_never_panics
